@@ -9,6 +9,7 @@ import (
 	"go/token"
 	"go/types"
 	"os"
+	"os/exec"
 	"path/filepath"
 	"regexp"
 	"sort"
@@ -53,6 +54,7 @@ type Clause struct {
 	Expr  ast.Expr
 	Info  *types.Info
 	Props []string
+	Slow  bool
 }
 
 type Contract struct {
@@ -72,12 +74,13 @@ type Contract struct {
 	File     string
 	Line     int
 	Options  map[string]bool
+	Splits   []*Clause // case-split predicates (over the entry state): every obligation is proved once per case
 	Nocheck  bool // contract is assumed at call sites but the body is not verified here (trusted)
 	NoOverread bool
 }
 
 var clauseRe = regexp.MustCompile(`^(\w+)\s*(.*)$`)
-var tagRe = regexp.MustCompile(`^\[([A-Za-z0-9_.+\-]+)\]\s*(.*)$`)
+var tagRe = regexp.MustCompile(`^\[([A-Za-z0-9_.+\-]+~?)\]\s*(.*)$`)
 
 func relPkgDir(pkgPath string) string {
 	if pkgPath == modPath {
@@ -96,6 +99,9 @@ package %s
 func old[T any](x T) T { return x }
 
 func implies(a, b bool) bool { return !a || b }
+
+// now(x), used inside old(...): x is evaluated in the post-state.
+func now[T any](x T) T { return x }
 
 func ite[T any](c bool, a, b T) T {
 	if c {
@@ -147,11 +153,27 @@ func aliases(s []byte, t []byte, lo, hi int) bool {
 // bufValid(b): b is a well-formed gopacket serialize buffer (0 <= start <= len(data) <= cap(data), ...).
 func bufValid(b any) bool { return b != nil }
 
-// bufSmall(b): bufValid and, additionally, capacity and growth increments below 2^30 bytes.
+// bufSmall(b): bufValid and, additionally, capacity and growth increments below 2^26 bytes
+// (the precondition of every serialiser: an assumption about memory size, not about the code).
 func bufSmall(b any) bool { return b != nil }
+
+// bufRoom(b, front, back): the buffer can take front more bytes in front and back more behind without reallocating.
+func bufRoom(b any, front, back int) bool { return b != nil }
+
+// bufMedium(b): the same with the bound 2^31 (what remains after a few doublings).
+func bufMedium(b any) bool { return b != nil }
 
 // bufBytes(b): the bytes currently in the buffer, b.Bytes().
 func bufBytes(b interface{ Bytes() []byte }) []byte { return b.Bytes() }
+
+// window(s, t, lo, hi): s is exactly t[lo:hi] (same backing array and start, also when empty).
+func window(s []byte, t []byte, lo, hi int) bool { return aliases(s, t, lo, hi) }
+
+// isnew(x): the backing array of x was allocated by the function under contract.
+func isnew(x []byte) bool { return true }
+
+// samebase(x, y): x and y share their backing array and x starts where y starts.
+func samebase(x, y []byte) bool { return cap(x) == 0 || cap(y) == 0 || &x[:1][0] == &y[:1][0] }
 
 // dyntype(x, "T") : the dynamic type of interface x is T
 func dyntype(x any, name string) bool { return true }
@@ -163,6 +185,8 @@ func loadWorld(repoDir, contractsDir string) (*World, error) {
 		FuncDecls: map[*ssa.Function]ast.Node{}, tags: map[string]int{}}
 	overlay := map[string][]byte{}
 	contractFiles := map[string]string{} // overlay path -> source path
+	depPkgs := map[string]string{}       // overlay path -> import path (dependency contracts)
+	depImports := map[string]bool{}
 	filepath.Walk(contractsDir, func(p string, fi os.FileInfo, err error) error {
 		if err != nil || fi.IsDir() || !strings.HasSuffix(p, "_verif.go") {
 			return nil
@@ -172,6 +196,17 @@ func loadWorld(repoDir, contractsDir string) (*World, error) {
 			return nil
 		}
 		dst := filepath.Join(repoDir, rel)
+		if strings.HasPrefix(rel, "_deps/") {
+			// contracts on a dependency: overlaid into the module cache copy of that package
+			imp := filepath.ToSlash(filepath.Dir(strings.TrimPrefix(rel, "_deps/")))
+			dir := depCopyDir(repoDir, imp)
+			if dir == "" {
+				return nil
+			}
+			dst = filepath.Join(dir, filepath.Base(p))
+			depPkgs[dst] = imp
+			depImports[imp] = true
+		}
 		b, err := os.ReadFile(p)
 		if err != nil {
 			return nil
@@ -181,7 +216,9 @@ func loadWorld(repoDir, contractsDir string) (*World, error) {
 		if m := regexp.MustCompile(`(?m)^package (\w+)`).FindSubmatch(b); m != nil {
 			overlay[filepath.Join(filepath.Dir(dst), "zz_prelude_verif.go")] = []byte(fmt.Sprintf(preludeSrc, string(m[1])))
 		}
-		if rb, err := os.ReadFile(dst); err == nil {
+		if _, isDep := depPkgs[dst]; isDep {
+			// dependency contracts live only in /verif
+		} else if rb, err := os.ReadFile(dst); err == nil {
 			if string(rb) != string(b) {
 				w.ContractDiff = append(w.ContractDiff, rel)
 			}
@@ -190,7 +227,11 @@ func loadWorld(repoDir, contractsDir string) (*World, error) {
 		}
 		return nil
 	})
-	cfg := &packages.Config{Mode: packages.LoadAllSyntax, Dir: repoDir, BuildFlags: []string{"-tags=verif"}, Overlay: overlay,
+	flags := []string{"-tags=verif"}
+	if mf := depModFile(repoDir); mf != "" {
+		flags = append(flags, "-modfile="+mf)
+	}
+	cfg := &packages.Config{Mode: packages.LoadAllSyntax, Dir: repoDir, BuildFlags: flags, Overlay: overlay,
 		Env: append(os.Environ(), "GOFLAGS=-mod=mod", "GOPROXY=off", "GOSUMDB=off", "GOTOOLCHAIN=local")}
 	pkgs, err := packages.Load(cfg, "./...")
 	if err != nil {
@@ -199,7 +240,8 @@ func loadWorld(repoDir, contractsDir string) (*World, error) {
 	var errs []string
 	packages.Visit(pkgs, nil, func(p *packages.Package) {
 		w.Pkgs[p.PkgPath] = p
-		if strings.HasPrefix(p.PkgPath, modPath) {
+		_, isDepWithContracts := depImports[p.PkgPath]
+		if strings.HasPrefix(p.PkgPath, modPath) || isDepWithContracts {
 			for _, e := range p.Errors {
 				errs = append(errs, e.Error())
 			}
@@ -235,6 +277,9 @@ func loadWorld(repoDir, contractsDir string) (*World, error) {
 		if rel != "." {
 			pkgPath = modPath + "/" + filepath.ToSlash(rel)
 		}
+		if imp, ok := depPkgs[dst]; ok {
+			pkgPath = imp
+		}
 		p := w.Pkgs[pkgPath]
 		if p == nil {
 			return nil, fmt.Errorf("contract file %s: no package %s", dst, pkgPath)
@@ -257,6 +302,10 @@ func (w *World) parseContracts(p *packages.Package, file, src string) error {
 	for i, ln := range lines {
 		t := strings.TrimSpace(ln)
 		if !strings.HasPrefix(t, "//@") {
+			if strings.HasPrefix(t, "//") {
+				last = nil // an ordinary comment inside a block
+				continue
+			}
 			flush()
 			continue
 		}
@@ -348,10 +397,17 @@ func (w *World) parseContracts(p *packages.Package, file, src string) error {
 		}
 		if tm := tagRe.FindStringSubmatch(rest); tm != nil {
 			cl.Tag = tm[1]
+			if strings.HasSuffix(cl.Tag, "~") {
+				// a trailing ~ marks a clause whose proof is slow: it is checked in the thorough tier only
+				cl.Tag = strings.TrimSuffix(cl.Tag, "~")
+				cl.Slow = true
+			}
 			rest = tm[2]
 		}
 		cl.Text = rest
 		switch kw {
+		case "split":
+			cur.Splits = append(cur.Splits, cl)
 		case "requires":
 			cur.Requires = append(cur.Requires, cl)
 		case "ensures":
@@ -400,6 +456,9 @@ func (w *World) findFunc(pkgPath, name string) *ssa.Function {
 		}
 		obj := sp.Pkg.Scope().Lookup(tn)
 		if obj == nil {
+			if os.Getenv("BMCVC_TIMING") != "" {
+				fmt.Fprintf(os.Stderr, "findFunc: type %s not in scope of %s (%d names)\n", tn, pkgPath, len(sp.Pkg.Scope().Names()))
+			}
 			return nil
 		}
 		var T types.Type = obj.Type()
@@ -452,4 +511,94 @@ func (w *World) typeTag(t types.Type) int {
 	w.tags[key] = n
 	w.tagNames = append(w.tagNames, key)
 	return n
+}
+
+var depDirCache = map[string]string{}
+
+// depDir finds the module-cache directory of a dependency package.
+func depDir(repoDir, importPath string) string {
+	if d, ok := depDirCache[importPath]; ok {
+		return d
+	}
+	cmd := exec.Command("go", "list", "-f", "{{.Dir}}", importPath)
+	cmd.Dir = repoDir
+	cmd.Env = append(os.Environ(), "GOFLAGS=-mod=mod", "GOPROXY=off", "GOSUMDB=off", "GOTOOLCHAIN=local")
+	out, err := cmd.Output()
+	d := strings.TrimSpace(string(out))
+	if err != nil {
+		d = ""
+	}
+	depDirCache[importPath] = d
+	return d
+}
+
+// Dependencies that carry contracts are loaded from a mechanical copy of their
+// module-cache directory (the go command ignores overlay files added to the
+// read-only module cache). The copy is made on every run from the module
+// cache; nothing in it is edited - contract files are added through the overlay.
+var depCopies = map[string][2]string{} // module path -> {copy dir, version}
+
+func depCopyDir(repoDir, importPath string) string {
+	cmd := exec.Command("go", "list", "-f", "{{.Dir}}|{{.Module.Path}}|{{.Module.Version}}|{{.Module.Dir}}", importPath)
+	cmd.Dir = repoDir
+	cmd.Env = append(os.Environ(), "GOFLAGS=-mod=mod", "GOPROXY=off", "GOSUMDB=off", "GOTOOLCHAIN=local")
+	out, err := cmd.Output()
+	if err != nil {
+		return ""
+	}
+	f := strings.Split(strings.TrimSpace(string(out)), "|")
+	if len(f) != 4 {
+		return ""
+	}
+	pkgDir, modP, ver, modDir := f[0], f[1], f[2], f[3]
+	cp, ok := depCopies[modP]
+	if !ok {
+		dst := filepath.Join(workDirOr(), "deps", strings.ReplaceAll(modP, "/", "_")+"@"+ver)
+		os.RemoveAll(dst)
+		os.MkdirAll(filepath.Dir(dst), 0o755)
+		if err := exec.Command("cp", "-r", modDir, dst).Run(); err != nil {
+			return ""
+		}
+		exec.Command("chmod", "-R", "u+w", dst).Run()
+		// the contract prelude uses generics: raise the copy's language version (only go.mod of the copy changes)
+		if gm, err := os.ReadFile(filepath.Join(dst, "go.mod")); err == nil {
+			re := regexp.MustCompile(`(?m)^go [0-9.]+$`)
+			os.WriteFile(filepath.Join(dst, "go.mod"), re.ReplaceAll(gm, []byte("go 1.22")), 0o644)
+		}
+		cp = [2]string{dst, ver}
+		depCopies[modP] = cp
+	}
+	rel, _ := filepath.Rel(modDir, pkgDir)
+	return filepath.Join(cp[0], rel)
+}
+
+func workDirOr() string {
+	if workDir != "" {
+		return workDir
+	}
+	return "/verif/work"
+}
+
+// depModFile writes an alternative go.mod (and go.sum) that replaces the copied dependencies.
+func depModFile(repoDir string) string {
+	if len(depCopies) == 0 {
+		return ""
+	}
+	b, err := os.ReadFile(filepath.Join(repoDir, "go.mod"))
+	if err != nil {
+		return ""
+	}
+	var sb strings.Builder
+	sb.Write(b)
+	sb.WriteString("\n")
+	for modP, cp := range depCopies {
+		fmt.Fprintf(&sb, "replace %s => %s\n", modP, cp[0])
+	}
+	mf := filepath.Join(workDirOr(), "go.verif.mod")
+	os.MkdirAll(workDirOr(), 0o755)
+	os.WriteFile(mf, []byte(sb.String()), 0o644)
+	if sum, err := os.ReadFile(filepath.Join(repoDir, "go.sum")); err == nil {
+		os.WriteFile(filepath.Join(workDirOr(), "go.verif.sum"), sum, 0o644)
+	}
+	return mf
 }
